@@ -151,7 +151,7 @@ func (c *Checker) checkC05Msg(msg sdk.Msg, ok bool) {
 		got := new(big.Int).Sub(c.post.BankOf(owner, b.Denom), c.pre.BankOf(owner, b.Denom))
 		sup := new(big.Int).Sub(c.post.SupplyOf(b.Denom), c.pre.SupplyOf(b.Denom))
 		if ratInt(got).Cmp(want) != 0 || ratInt(sup).Cmp(want) != 0 {
-			c.report("C05", "put-minted-wrong-amount", fmt.Sprintf("Put of credits worth %s tokens: owner received %s, supply grew by %s", ratStr(want), got, sup), nil)
+			c.report("C05", "put-minted!=units", fmt.Sprintf("Put of credits worth exactly %s tokens (amount x 10^%d): the owner received %s, the supply grew by %s", ratStr(want), prec, got, sup), nil)
 		}
 		if r := respStr(c.response(), "amount_received"); r != got.String() {
 			c.report("C05", "put-response-mismatch", fmt.Sprintf("MsgPutResponse.amount_received = %q but the owner received %s", r, got), nil)
